@@ -105,6 +105,9 @@ The output format is the same than input format.
 				var p string
 				var posint int64
 				positions = strings.Split(maskpos, ",")
+				// all positions are converted on the alignment as given, then masked
+				starts := make([]int, 0, len(positions))
+				lengths := make([]int, 0, len(positions))
 				for _, p = range positions {
 					if posint, err = strconv.ParseInt(p, 10, 32); err != nil {
 						io.LogError(err)
@@ -112,7 +115,17 @@ The output format is the same than input format.
 					}
 					start := int(posint)
 					length := 1
-					if err = mask(al, start, length, refseq, maskrefseq, maskreplace, masknogap, masknoref); err != nil {
+					if refseq {
+						if start, length, err = al.RefCoordinates(maskrefseq, start, length); err != nil {
+							io.LogError(err)
+							return
+						}
+					}
+					starts = append(starts, start)
+					lengths = append(lengths, length)
+				}
+				for i := range starts {
+					if err = mask(al, starts[i], lengths[i], false, maskrefseq, maskreplace, masknogap, masknoref); err != nil {
 						io.LogError(err)
 						return
 					}
